@@ -14,7 +14,10 @@ def run(ctx):
                 "size-limited tasters, trickled in chunks of 1..4096 bytes: buffer length and skip count compared with the model after "
                 "every chunk; (2) the REAL constraint classes (ByteString, Integer, Number, Unicode, ListOf, TupleOf, DictOf, SetOf, nested) "
                 "as root constraint of a real Banana: oversize bodies at every leaf position, trickled; high-water mark of len(buffer) "
-                "against 65 + the schema's bound; non-trivial = distinct run in which at least one oversize body was announced")
+                "against 65 + the schema's bound; (3) schema isolation, a fixed sweep: a tight schema (every constraint class x position) in force "
+                "on one connection while looser constraint objects of every class are built before / after / in mid-message, a loose twin schema "
+                "is receiving on another connection, or the same schema object serves two connections: a body the tight schema refuses is "
+                "never buffered; non-trivial = distinct run in which at least one oversize body was announced")
     ctx.assumptions = ["the schema bound B of a real constraint tree is computed by the harness from the constraint objects' public "
                        "attributes (maxLength, maxBytes); index tokens are bounded by RootUnslicer.maxIndexLength",
                        "the tokenizer model is tied to banana.py by the C07 correspondence; here the per-chunk buffer/skip values are compared"]
@@ -230,6 +233,7 @@ def real_constraints(ctx, I):
     member_counts(ctx, I)
     choice_open_sweep(ctx, I)
     slot_alternation(ctx, I)
+    schema_isolation(ctx, I)
     pb_index_tokens(ctx)
     if ctx.build_ok or ctx.coq_build(["lib/OpenerProofs.vo"])[0]:
         opener_correspondence(ctx)
@@ -422,6 +426,121 @@ def slot_alternation(ctx, I):
                              "was buffered (%d bytes held, chunks of %d): the taster of another slot was applied"
                              % (desc, hex(ty), size, hw, step), replay=dict(case=desc, ty=ty, size=size, step=step, highwater=hw))
                     break
+
+
+def schema_isolation(ctx, I):
+    """the limit in force is the one of the constraint object IN FORCE ON THIS CONNECTION: it does not depend on which other constraint
+    objects the process has built before, afterwards or in the middle of the message (control: none of this), nor on what another connection is receiving under a
+    looser schema of the same shape, nor on another connection that uses the very same schema object.  Fixed sweep (no random choice):
+    every constraint class as the tight leaf x position x kind of disturbance x sized token kind x announced size; an announced body
+    that the tight schema refuses must not be buffered (only header bytes may be held)."""
+    from foolscap.constraint import IConstraint, ByteStringConstraint, IntegerConstraint, NumberConstraint, Any
+    from foolscap.schema import ListOf, TupleOf, DictOf, SetOf, UnicodeConstraint, BooleanConstraint, ChoiceOf
+    from foolscap.slicers.none import Nothing
+    T = lambda loose, v: None if loose else v
+    # (name, maker(loose), OPEN to send at the leaf position or None): every limit of the tight form is <= 40 bytes
+    leaves = [("bytes<=10", lambda lo: ByteStringConstraint(maxLength=T(lo, 10)), None),
+              ("int<=8B", lambda lo: IntegerConstraint(maxBytes=T(lo, 8)), None),
+              ("int32", lambda lo: IntegerConstraint(maxBytes=T(lo, -1)), None),
+              ("number<=8B", lambda lo: NumberConstraint(maxBytes=T(lo, 8)), None),
+              ("unicode<=5", lambda lo: UnicodeConstraint(maxLength=T(lo, 5)), b"unicode"),
+              ("bool", lambda lo: (Any() if lo else BooleanConstraint()), b"boolean"),
+              ("none", lambda lo: (Any() if lo else Nothing()), None),
+              ("choice(bytes<=10,None)", lambda lo: ChoiceOf(ByteStringConstraint(maxLength=T(lo, 10)), None), None),
+              ("choice(int<=8B,unicode<=5)", lambda lo: ChoiceOf(IntegerConstraint(maxBytes=T(lo, 8)), UnicodeConstraint(maxLength=T(lo, 5))), None)]
+    small = lambda lo: ByteStringConstraint(maxLength=T(lo, 5))
+    big = lambda lo: ByteStringConstraint(maxLength=T(lo, 1000))
+    O = lambda ot: tok(OPEN, 0) + S(ot)
+    schemas = []
+    for lname, mk, ot in leaves:
+        inner = (tok(OPEN, 1) + S(ot)) if ot else b""
+        schemas.append((lname, mk, inner))
+        schemas.append(("ListOf(%s)" % lname, (lambda lo, mk=mk: ListOf(mk(lo), maxLength=T(lo, 3))), O(b"list") + inner))
+        schemas.append(("DictOf(bytes<=5,%s) value" % lname, (lambda lo, mk=mk: DictOf(small(lo), mk(lo), maxKeys=T(lo, 2))), O(b"dict") + S(b"k") + inner))
+        schemas.append(("TupleOf(bytes<=5,%s) second" % lname, (lambda lo, mk=mk: TupleOf(small(lo), mk(lo))), O(b"tuple") + S(b"k") + inner))
+    # limits of the CONTAINER: one more item than it admits, each item acceptable to the item constraint alone
+    schemas.append(("ListOf(bytes<=1000,maxLength=1) full", lambda lo: ListOf(big(lo), maxLength=T(lo, 1)), O(b"list") + S(b"a")))
+    schemas.append(("SetOf(bytes<=1000,maxLength=1) full", lambda lo: SetOf(big(lo), maxLength=T(lo, 1)), O(b"set") + S(b"a")))
+    schemas.append(("DictOf(bytes<=1000,bytes<=1000,maxKeys=1) full", lambda lo: DictOf(big(lo), big(lo), maxKeys=T(lo, 1)), O(b"dict") + S(b"a") + S(b"b")))
+    schemas.append(("TupleOf(bytes<=1000) full", lambda lo: (TupleOf(big(lo), big(lo)) if lo else TupleOf(big(lo))), O(b"tuple") + S(b"a")))
+
+    def siblings():
+        """one looser sibling of every constraint class, and the shorthand forms: built, never installed anywhere"""
+        return [IntegerConstraint(maxBytes=300), IntegerConstraint(maxBytes=10 ** 6), IntegerConstraint(maxBytes=None),
+                NumberConstraint(maxBytes=300), NumberConstraint(maxBytes=None), ByteStringConstraint(maxLength=10 ** 7), ByteStringConstraint(maxLength=None),
+                UnicodeConstraint(maxLength=10 ** 6), UnicodeConstraint(maxLength=None), BooleanConstraint(), Nothing(), Any(),
+                ListOf(ByteStringConstraint(maxLength=None), maxLength=10 ** 6), ListOf(Any(), maxLength=None), SetOf(Any(), maxLength=None),
+                DictOf(Any(), Any(), maxKeys=None), TupleOf(Any(), Any(), Any()),
+                ChoiceOf(ByteStringConstraint(maxLength=None), IntegerConstraint(maxBytes=None), UnicodeConstraint(maxLength=None), None),
+                IConstraint(int), IConstraint(bytes), IConstraint(str), IConstraint(float), IConstraint(bool), IConstraint(None),
+                IConstraint((int, bytes))]
+
+    disturbances = ("none", "built-before", "built-after-install", "built-mid-message", "loose-twin-receiving", "same-object-on-two-connections")
+    control_failed = set()
+    for sname, mk, prefix in schemas:
+        for dist in disturbances:
+            for ty in (STRING, LONGINT, LONGNEG):
+                for size in ((200, 10 ** 6, 2 ** 448 - 1) if ctx.tier == "quick" else (66, 200, 1001, 10 ** 6, 2 ** 64, 2 ** 448 - 1)):
+                    hw, esc, keep, twin = 0, None, [], None
+                    try:
+                        if dist == "built-before":
+                            keep = siblings()
+                        c = IConstraint(mk(False))
+                        p = I.RealBanana()
+                        p.receiveStack[-1].constraint = c
+                        if dist == "built-after-install":
+                            keep = siblings()
+                        elif dist == "same-object-on-two-connections":
+                            twin = I.RealBanana()
+                            twin.receiveStack[-1].constraint = c
+                        elif dist == "loose-twin-receiving":
+                            twin = I.RealBanana()
+                            twin.receiveStack[-1].constraint = IConstraint(mk(True))
+                        p.dataReceived(prefix)
+                        if dist == "built-mid-message":
+                            keep = siblings()
+                        if twin is not None:
+                            # the other connection is in the middle of the same message; under the loose twin schema it goes on to
+                            # receive the same sized token (accepted there) while this one is being judged
+                            twin.dataReceived(prefix)
+                            if dist == "loose-twin-receiving":
+                                twin.dataReceived(tok(ty, 2000) + b"t" * 700)
+                        p.dataReceived(tok(ty, size))
+                        hw = len(p.buffer)
+                        left = min(size - 1, 3000)
+                        while left > 0 and not p.connectionAbandoned:
+                            n_ = min(1000, left)
+                            if twin is not None and dist == "loose-twin-receiving" and not twin.connectionAbandoned:
+                                twin.dataReceived(b"t" * 100)
+                            p.dataReceived(b"y" * n_)
+                            left -= n_
+                            hw = max(hw, len(p.buffer))
+                    except Exception as e:
+                        esc = "%s: %s" % (type(e).__name__, e)
+                    ctx.case(["schema-isolation", sname, dist, ty, size], nontrivial=True)
+                    ctx.hist("schema_isolation", dist)
+                    cls = sname.split("(")[-1].split("<")[0].split(",")[0].rstrip(") ") if "full" not in sname else sname.split("(")[0] + "-full"
+                    if esc:
+                        ctx.fail("oracle/exception-escaped", "exception escaped dataReceived under %s (%s): %s" % (sname, dist, esc),
+                                 replay=dict(constraint=sname, disturbance=dist, ty=ty, size=size))
+                    elif hw > 65 and dist == "none":
+                        # control run: nothing else happens between building the schema and receiving
+                        control_failed.add((sname, ty, size))
+                        ctx.fail("oracle/rejected-body-buffered/tight-schema",
+                                 "schema in force: %s (every limit <= 40 bytes, or the container already full), built immediately before use. A %s "
+                                 "token announcing %d bytes, which that schema refuses, was buffered (%d bytes held, 1000-byte packets)"
+                                 % (sname, hex(ty), size, hw),
+                                 replay=dict(constraint=sname, leaf=cls, disturbance=dist, ty=ty, size=size, packets=1000, highwater=hw))
+                    elif hw > 65 and (sname, ty, size) not in control_failed:
+                        ctx.fail("oracle/limit-depends-on-other-constraints/%s" % dist,
+                                 "schema in force on this connection: %s (every limit <= 40 bytes, or the container already full). A %s token "
+                                 "announcing %d bytes, which that schema refuses, is refused unbuffered when nothing else happens (control run), "
+                                 "but was buffered (%d bytes held, 1000-byte packets) when other constraint objects were in play (%s): the limit "
+                                 "applied was not the one of the constraint in force"
+                                 % (sname, hex(ty), size, hw, dist),
+                                 replay=dict(constraint=sname, leaf=cls, disturbance=dist, ty=ty, size=size, packets=1000, highwater=hw,
+                                             siblings="see harness/c11.py schema_isolation.siblings"))
+                    del keep
 
 
 def negotiation_coalesced(ctx):
